@@ -1,0 +1,44 @@
+// Copyright 2024 The Go Authors. All rights reserved.
+// Use of this source code is governed by a BSD-style
+// license that can be found in the LICENSE file.
+
+//go:build verif
+
+// Contracts (//@ lines) for the local viewer; compiled only with -tags verif.
+
+package view
+
+// C11 ghost: $prev, the number of names reported as unregistered before the
+// counter currently examined by summary.
+
+//@ ghost prev int
+
+// newCounterFile: the five metadata flags are the configuration's answers for
+// the file's metadata; every counter is flagged active exactly when the
+// configuration approves it, a stack counter by the part of its name before
+// the first newline (the shared vocabulary of package config).
+//@ contract newCounterFile
+//@   requires c != nil && cfg != nil
+//@   at call Cut#1: after assume result0 == config.SpecStackName(arg0)
+//@   at call Cut#1: after assume result2 <==> strings.Contains(arg0, "\n")
+//@   at call append#1: assert strings.Contains(k, "\n") && active == cfg.HasStack(c.Meta["Program"], config.SpecStackName(k))
+//@   at call append#2: assert !strings.Contains(k, "\n") && active == cfg.HasCounter(c.Meta["Program"], k)
+//@   at call summary#1: assert arg0 == cfg && arg1 == c.Meta && arg2 == c.Count
+//@   modifies heap, $prev
+
+// summary: a data set is described as "unregistered, nothing uploaded" exactly
+// when its program build is not approved (any of the five metadata values
+// unlisted); otherwise a counter is named as excluded exactly when it is not
+// approved.
+//@ contract summary
+//@   requires cfg != nil
+//@   at call Sprintf#1: assert !cfg.HasProgram(meta["Program"])
+//@   at call Sprintf#2: assert cfg.HasProgram(meta["Program"]) && (!cfg.HasGOOS(meta["GOOS"]) || !cfg.HasGOARCH(meta["GOARCH"]))
+//@   at call Sprintf#3: assert cfg.HasProgram(meta["Program"]) && cfg.HasGOOS(meta["GOOS"]) && cfg.HasGOARCH(meta["GOARCH"]) && !cfg.HasGoVersion(meta["GoVersion"])
+//@   at call Sprintf#4: assert cfg.HasProgram(meta["Program"]) && cfg.HasGOOS(meta["GOOS"]) && cfg.HasGOARCH(meta["GOARCH"]) && cfg.HasGoVersion(meta["GoVersion"]) && !cfg.HasVersion(meta["Program"], meta["Version"])
+//@   at call Cut#1: assert cfg.HasProgram(meta["Program"]) && cfg.HasGOOS(meta["GOOS"]) && cfg.HasGOARCH(meta["GOARCH"]) && cfg.HasGoVersion(meta["GoVersion"]) && cfg.HasVersion(meta["Program"], meta["Version"])
+//@   at call Cut#1: ghost $prev = len(counters)
+//@   at call Cut#1: after assume result0 == config.SpecStackName(arg0)
+//@   at call Cut#1: after assume result2 <==> strings.Contains(arg0, "\n")
+//@   at loop 1 end: assert len(counters) == $prev + ite((strings.Contains(c, "\n") && !cfg.HasStack(meta["Program"], config.SpecStackName(c))) || (!strings.Contains(c, "\n") && !cfg.HasCounter(meta["Program"], c)), 1, 0)
+//@   modifies $prev
